@@ -384,7 +384,7 @@ func c15Case(run *vf.Run, box *etcdbox.Box, idx int) {
 		cat = catalog.FixedSnapshots[idx](root)
 		run.Count("fixed_catalogs", 1)
 	} else {
-		cat = catalog.GenSnapshot(root, rnd, catalog.GenOptions{RecreatedDBPercent: 25, CollisionPercent: 10})
+		cat = catalog.GenSnapshot(root, rnd, catalog.GenOptions{RecreatedDBPercent: 25, CollisionPercent: 10, ShortIDs: rnd.Intn(4) == 0})
 	}
 	ctx, cancel := context.WithTimeout(context.Background(), 60*time.Second)
 	defer cancel()
